@@ -3,6 +3,7 @@ package cctfe
 import (
 	"bytes"
 	"context"
+	"crypto/sha256"
 	"encoding/json"
 	"errors"
 	"fmt"
@@ -68,6 +69,14 @@ func (m *MemStore) Add(_ context.Context, key []byte, chain []byte) error {
 	return nil
 }
 
+// holds tells whether the store has exactly chain under key.
+func (m *MemStore) holds(key, chain []byte) bool {
+	m.mu.Lock()
+	defer m.mu.Unlock()
+	v, ok := m.rows[string(key)]
+	return ok && bytes.Equal(v, chain)
+}
+
 func (m *MemStore) counts() (int, int) { m.mu.Lock(); defer m.mu.Unlock(); return m.Adds, m.Finds }
 
 // damage rewrites a stored row.
@@ -114,6 +123,7 @@ type GateCache struct {
 }
 
 type ticket struct {
+	chain   []byte
 	key     string
 	release chan struct{}
 	done    chan struct{}
@@ -128,7 +138,7 @@ func (g *GateCache) Get(ctx context.Context, key []byte) ([]byte, error) { retur
 
 // Set waits at the gate.
 func (g *GateCache) Set(ctx context.Context, key []byte, chain []byte) error {
-	t := &ticket{key: string(key), release: make(chan struct{}), done: make(chan struct{})}
+	t := &ticket{key: string(key), chain: append([]byte{}, chain...), release: make(chan struct{}), done: make(chan struct{})}
 	g.mu.Lock()
 	g.tickets = append(g.tickets, t)
 	g.mu.Unlock()
@@ -162,6 +172,42 @@ func (g *GateCache) Fire(key []byte) error {
 		case <-time.After(50 * time.Millisecond):
 		}
 	}
+}
+
+// Settle waits until at least want detached Sets have arrived at the gate (they are started with `go`, so they
+// arrive some time after the request returned), gives stragglers a moment, and returns how many wait there.
+func (g *GateCache) Settle(want int) int {
+	deadline := time.Now().Add(5 * time.Second)
+	for {
+		g.mu.Lock()
+		n := len(g.tickets)
+		g.mu.Unlock()
+		if n >= want || time.Now().After(deadline) {
+			break
+		}
+		select {
+		case <-g.arrived:
+		case <-time.After(20 * time.Millisecond):
+		}
+	}
+	for i := 0; i < 20; i++ {
+		runtime.Gosched()
+	}
+	time.Sleep(200 * time.Microsecond)
+	g.mu.Lock()
+	defer g.mu.Unlock()
+	return len(g.tickets)
+}
+
+// Waiting returns the (key, chain) pairs waiting at the gate.
+func (g *GateCache) Waiting() [][2][]byte {
+	g.mu.Lock()
+	defer g.mu.Unlock()
+	var out [][2][]byte
+	for _, t := range g.tickets {
+		out = append(out, [2][]byte{[]byte(t.key), t.chain})
+	}
+	return out
 }
 
 // ReleaseAll lets every pending Set run (end of a behaviour).
@@ -200,6 +246,7 @@ type CSStep struct {
 type CSBehaviour struct {
 	Cap   int      `json:"cap"`
 	Steps []CSStep `json:"steps"`
+	Cold  []bool   `json:"cold"` // per integrated entry: can a front end with a cold cache serve it from the final state (ServableCold)
 }
 
 type twin struct {
@@ -207,6 +254,7 @@ type twin struct {
 	store   *MemStore
 	gate    *GateCache
 	keys    map[string][]byte // chain id -> storage key (learned from the first Add of that chain)
+	restart func() error      // replaces x by a new instance (same backend, same store) with a cold cache
 }
 
 // chain ids of MCChainOf
@@ -270,6 +318,23 @@ func newTwin(dir string, capacity int, seedSalt int64, realTTL time.Duration) (*
 	if tw.x, err = mk(ctfeenv.Opts{Storage: tw.store, Cache: tw.gate}); err != nil {
 		return nil, err
 	}
+	tw.restart = func() error {
+		old := tw.gate
+		var fresh cache.IssuanceChainCache
+		if capacity < 0 {
+			fresh = &noop.IssuanceChainCache{}
+		} else {
+			fresh = lru.NewIssuanceChainCache(lru.CacheOption{Size: capacity, TTL: realTTL})
+		}
+		tw.gate = newGateCache(fresh)
+		x, err := mk(ctfeenv.Opts{Storage: tw.store, Cache: tw.gate, Backend: tw.x.Env.Backend})
+		if err != nil {
+			return err
+		}
+		tw.x = x
+		old.ReleaseAll() // writes of the dead process go to the dead cache
+		return nil
+	}
 	return tw, nil
 }
 
@@ -301,15 +366,33 @@ func runChainStore(t *testing.T, beh CSBehaviour, idx int, rep *vh.Report, dir s
 	if err != nil {
 		t.Fatalf("twin: %v", err)
 	}
-	defer tw.gate.ReleaseAll()
+	defer func() { tw.gate.ReleaseAll() }()
 	kinds := map[string]bool{}
 	diverged := false
 	viol := func(n int, fp, what string) {
 		diverged = true // once implementation and specification disagree the rest of the behaviour has no meaning
-		rep.Violate("chainstore:"+fp, what, map[string]any{"behaviour": CSBehaviour{beh.Cap, beh.Steps[:n+1]}, "step": n})
+		rep.Violate("chainstore:"+fp, what, map[string]any{"behaviour": CSBehaviour{Cap: beh.Cap, Steps: beh.Steps[:n+1]}, "step": n})
+	}
+	outstanding := 0 // detached cache writes the specification has started and not yet fired (counted for the noop cache too)
+	unmodelled := false
+	settle := func(n int, what string) {
+		if got := tw.gate.Settle(outstanding); got > outstanding {
+			// a cache write the specification does not know.  It is a violation when it is unsound: the cache is told
+			// about a chain that the store does not hold under that key (the cache stands for "stored", see add()).
+			// A sound extra write only means the implementation caches more eagerly than the model: the hit / miss
+			// predictions of this behaviour no longer apply, nothing more.
+			for _, kc := range tw.gate.Waiting() {
+				sum := sha256.Sum256(kc[1])
+				if !bytes.Equal(sum[:], kc[0]) || !tw.store.holds(kc[0], kc[1]) {
+					viol(n, "cache-write:unsound:"+what, fmt.Sprintf("a detached cache write carries a chain the storage does not hold under that hash (%d writes on their way, the specification knows of %d): a later submission of that chain is acknowledged from the cache alone and its entry cannot be served by a front end with a cold cache", got, outstanding))
+					return
+				}
+			}
+			unmodelled = true
+		}
 	}
 	for n, s := range beh.Steps {
-		if diverged {
+		if diverged || unmodelled {
 			break
 		}
 		kinds[fmt.Sprintf("%s/%d/%s", s.Op, s.Reply.Status, s.Args.Fault)] = true
@@ -325,6 +408,9 @@ func runChainStore(t *testing.T, beh CSBehaviour, idx int, rep *vh.Report, dir s
 			q0 := tw.x.Env.Backend.CallCount("QueueLeaf")
 			codeX, _, bodyX, errX := tw.x.Env.AddChain(sub.Chain, sub.Pre)
 			a1, _ := tw.store.counts()
+			tw.store.mu.Lock()
+			tw.store.FailAdd = false
+			tw.store.mu.Unlock()
 			if errX != nil {
 				viol(n, "submit:panic", errX.Error())
 				continue
@@ -338,6 +424,7 @@ func runChainStore(t *testing.T, beh CSBehaviour, idx int, rep *vh.Report, dir s
 					viol(n, "submit:storage-fault-not-5xx", fmt.Sprintf("storage Add failed but the submission answered %d (backend called: %v)", codeX, tw.x.Env.Backend.CallCount("QueueLeaf") != q0))
 				}
 				// the specification leaves the state unchanged: the direct twin does not get this submission either
+				settle(n, "after-failed-add")
 				continue
 			}
 			if codeD, _, bodyD, errD := tw.d.Env.AddChain(sub.Chain, sub.Pre); errD != nil || codeD != 200 {
@@ -349,6 +436,15 @@ func runChainStore(t *testing.T, beh CSBehaviour, idx int, rep *vh.Report, dir s
 			if a1 > a0 {
 				tw.keys[chainOf[s.Args.Cert]] = tw.store.LastKey
 			}
+			if s.Reply.Add {
+				outstanding++
+			}
+			settle(n, "after-submit")
+		case "Restart":
+			if err := tw.restart(); err != nil {
+				t.Fatalf("restart: %v", err)
+			}
+			outstanding = 0
 		case "Sequence":
 			nanos := tw.d.Nanos(1, 0)
 			tw.d.Env.Backend.Sequence(s.Args.K, nanos, nil)
@@ -402,6 +498,12 @@ func runChainStore(t *testing.T, beh CSBehaviour, idx int, rep *vh.Report, dir s
 			} else if codeX < 500 {
 				viol(n, fmt.Sprintf("read:fault-status:%s:got%d", fpc, codeX), fmt.Sprintf("storage fault answered %d, expected 5xx", codeX))
 			}
+			if s.Reply.Status == 200 && s.Reply.Find {
+				outstanding++
+			}
+			if !diverged {
+				settle(n, "after-read")
+			}
 			if (f1-f0 == 1) != s.Reply.Find {
 				viol(n, fmt.Sprintf("read:find-calls:%s:want=%v", fpc, s.Reply.Find), fmt.Sprintf("index %d (%s): storage.FindByKey called %d times, specification says %v (cache capacity %d)", s.Args.Index, s.Args.Via, f1-f0, s.Reply.Find, beh.Cap))
 			}
@@ -414,11 +516,42 @@ func runChainStore(t *testing.T, beh CSBehaviour, idx int, rep *vh.Report, dir s
 			if err := tw.gate.Fire(key); err != nil {
 				viol(n, "cachesetfires:missing", "the specification expects a detached cache.Set for chain "+s.Args.Chain+" but none arrived: "+err.Error())
 			}
+			outstanding--
 		case "DropRow":
 			tw.store.damage(tw.keys[s.Args.Chain], "drop")
 		case "Corrupt":
 			tw.store.damage(tw.keys[s.Args.Chain], s.Args.Class)
 		}
+	}
+	if !diverged && !unmodelled && len(beh.Cold) == tw.x.Env.Backend.Size() {
+		// the specification's own continuation: every detached write lands, the front end is replaced by one with a
+		// cold cache (restart / another replica), every integrated entry is read; ServableCold says which must be served
+		tw.gate.ReleaseAll()
+		if err := tw.restart(); err != nil {
+			t.Fatalf("restart: %v", err)
+		}
+		size := tw.d.Env.Backend.Size()
+		n := len(beh.Steps) - 1
+		for i, servable := range beh.Cold {
+			for _, via := range []string{"entries", "proof"} {
+				codeD, leafD, extraD, errD := readEntry(tw.d, via, i, size)
+				if errD != nil || codeD != 200 {
+					t.Fatalf("direct instance read failed: %d %v", codeD, errD)
+				}
+				codeX, leafX, extraX, errX := readEntry(tw.x, via, i, size)
+				switch {
+				case errX != nil && codeX == 0:
+					viol(n, "cold:panic:"+via, errX.Error())
+				case servable && codeX != 200:
+					viol(n, "cold:unserved:"+via, fmt.Sprintf("after a restart (cold cache) index %d is answered %d over %s although its chain was stored and no storage damage touched it: the entry was acknowledged, sequenced and is no longer served", i, codeX, via))
+				case codeX == 200 && (!bytes.Equal(leafX, leafD) || !bytes.Equal(extraX, extraD)):
+					viol(n, "cold:differs:"+via, fmt.Sprintf("after a restart index %d is served with other bytes than the direct mode (%s)", i, via))
+				case !servable && codeX != 200 && codeX < 500:
+					viol(n, "cold:fault-status:"+via, fmt.Sprintf("damaged / missing stored chain answered %d, expected 5xx", codeX))
+				}
+			}
+		}
+		kinds["ColdAudit/0/"] = true
 	}
 	key := ""
 	if len(kinds) >= 3 {
